@@ -5,7 +5,7 @@ from harness import casgen, common, refio, sessions
 from harness.common import bud
 
 PROP = "C01"
-MODULES = ["CassisModel.Properties.C01", "CassisModel.Properties.C01RoundTrip", "CassisModel.Properties.C01Applies", "CassisModel.Properties.C03Doc"]
+MODULES = ["CassisModel.Properties.C01", "CassisModel.Properties.C01RoundTrip", "CassisModel.Properties.C01Applies", "CassisModel.Properties.C01RoundTripColl", "CassisModel.Properties.C01AppliesColl", "CassisModel.Properties.C03Doc"]
 THEOREMS = [
     "Cassis.Lex.parseInt_showInt",
     "Cassis.Lex.splitWs_joinSp",
@@ -29,12 +29,15 @@ THEOREMS = [
     "Cassis.Xmi.xmi_roundtrip_flat_fixpoint",
     "Cassis.Xmi.xmi_offset_roundtrip",
     "Cassis.Xmi.rtAppliesB_sound",
+    "Cassis.Xmi.xmi_roundtrip_coll",
+    "Cassis.Xmi.collFs_of_flatFs",
+    "Cassis.Xmi.collAppliesB_sound",
 ]
 ASSUMPTIONS = [
     "the theorems cover the lexical layer (int/bool/hex/token lists), the per-kind encode/decode pairs of the model's writer and reader, id ordering/uniqueness of the written document and the sofa/view records; the end-to-end statement load(save c) ~ c over whole graphs is NOT proved: it is checked on the implementation (oracle) and between implementation and model (correspondence) on generated CASes (partial)",
     "lxml text layer (escaping, namespaces, pretty printing), float <-> literal conversion of CPython, and the tag <-> type-name mapping are trusted and exercised through an independent stdlib reader/writer",
     "generators stay out of the recorded findings: null elements in FSArrays (X3), empty inline StringLists (X5), annotations without sofa (U2)",
-    "the end-to-end theorem xmi_roundtrip_flat covers CASes whose reachable structures have only primitive, plain reference and sofa features; whether it applies to a generated CAS is decided by the sound Boolean test rtAppliesB evaluated by the compiled model (histogram roundtrip-theorem-applies); for the other CASes (array and list features) the round trip is checked per run only",
+    "the end-to-end theorem xmi_roundtrip_coll covers CASes with primitive, reference, sofa, array and list features (inlined or shared) subject to the side conditions of Spec/RoundTripCollFrag.lean (what XMI cannot express: null FSArray elements, inlined collection objects without element list, empty inlined string lists, ...); whether it applies to a generated CAS is decided by the sound Boolean tests collAppliesB / rtAppliesB evaluated by the compiled model (histograms collection-theorem-applies / flat-theorem-applies); for CASes outside, the round trip is checked per run only",
 ]
 
 
@@ -123,11 +126,13 @@ def run_cases(ctx, out, cases, tag):
                 if i < len(ops2) and ops2[i]["op"] == "rt.applies":
                     return "model-only"
                 return x
-            applies = mb[k][n - 3].get("ok") if len(mb[k]) > n - 3 and isinstance(mb[k][n - 3], dict) else None
-            out.count("roundtrip-theorem-applies:%s" % ("yes" if applies is True else "no"))
-            if applies is True:
-                # the theorem (rtAppliesB_sound) says the model's load of the model's document succeeds and preserves the
-                # content; the implementation must then show the same round trip
+            ap = mb[k][n - 3].get("ok") if len(mb[k]) > n - 3 and isinstance(mb[k][n - 3], dict) else None
+            ap = ap if isinstance(ap, dict) else {}
+            out.count("flat-theorem-applies:%s" % ("yes" if ap.get("flat") is True else "no"))
+            out.count("collection-theorem-applies:%s" % ("yes" if ap.get("coll") is True else "no"))
+            if ap.get("coll") is True or ap.get("flat") is True:
+                # the theorems (collAppliesB_sound / rtAppliesB_sound) say the model's load of the model's document succeeds
+                # and preserves the content; the implementation must then show the same round trip
                 if "ok" not in mb[k][n] or "ok" not in load_r:
                     out.oracle_failures.append({"scenario": sc2, "what": "the round-trip theorem applies to this CAS but loading raised",
                                                 "actual": [load_r, mb[k][n]]})
